@@ -273,7 +273,17 @@ def r2(ctx: Ctx) -> None:
         if isinstance(n, ast.Assign) and len(n.targets) == 1 and isinstance(n.targets[0], ast.Name) and isinstance(n.value, ast.JoinedStr):
             names[n.targets[0].id] = norm(n.value)
     gi = [c for c in _calls(mdns) if any(f.name == "_async_zeroconf_get_service_info" for f in res.callees(mdns, c).funcs)]
-    ctx.ob("C20.R2", mdns, "service info requested for <name>._esphomelib._tcp.local. at server <name>.local.", len(gi) == 1 and len(gi[0].args) >= 4 and names.get(norm(gi[0].args[2])) == f"f'{{{hp}}}.{{SERVICE_TYPE}}'" and names.get(norm(gi[0].args[3])) == f"f'{{{hp}}}.local.'" and norm(gi[0].args[1]) == "SERVICE_TYPE", f"{names}")
+    gi_fn = ctx.repo.func(HR, "_async_zeroconf_get_service_info")
+    gb = res.bind_args(gi_fn, gi[0]) if len(gi) == 1 else {}
+    gpn = gi_fn.param_names()
+
+    def _named(e: "ast.expr | None") -> "str | None":
+        if e is None:
+            return None
+        return names.get(norm(e)) or (norm(e) if isinstance(e, ast.JoinedStr) else None)
+
+    ok_names = len(gi) == 1 and len(gpn) >= 4 and _named(gb.get(gpn[2])) == f"f'{{{hp}}}.{{SERVICE_TYPE}}'" and _named(gb.get(gpn[3])) == f"f'{{{hp}}}.local.'" and gb.get(gpn[1]) is not None and norm(gb.get(gpn[1])) == "SERVICE_TYPE"
+    ctx.ob("C20.R2", mdns, "service info requested for <name>._esphomelib._tcp.local. at server <name>.local.", ok_names, f"{names}; passed { {k: norm(v)[:40] for k, v in gb.items()} }")
     # conversion
     conv = ctx.repo.func(HR, "_async_ip_address_to_addrs")
     gc = cfg_of(ctx, conv)
@@ -498,7 +508,7 @@ def r3(ctx: Ctx) -> None:
         from ..cfg import may_forward
 
         facts = may_forward(gg, gk)
-        torn = any("torn" in facts.get(x, frozenset()) for x in (gg.exit, gg.raise_exit)) or any(x.startswith("open:") for x in facts.get(gg.exit, frozenset()))
+        torn = any("torn" in facts.get(x, frozenset()) for x in (gg.exit, gg.raise_exit)) or any(x.startswith("open:") for e_ in (gg.exit, gg.raise_exit) for x in facts.get(e_, frozenset()))
         ctx.ob("C20.R3", f, "instance and ownership flag change together (no suspension point or exit between the two writes)", not torn, "while control is lost the flag describes an instance that is no longer (or not yet) the one installed: a supplied instance can inherit 'created' and be closed, or a created one is never closed")
     # get_async_zeroconf creates only when none exists
     ga = mgr.methods.get("get_async_zeroconf")
@@ -627,8 +637,13 @@ def r3(ctx: Ctx) -> None:
     # the mDNS helper hands the caller's manager through (a fresh one only when none was given)
     mdns = ctx.repo.func(HR, "_async_resolve_host_zeroconf")
     cs = [c for c in _calls(mdns) if gi in res.callees(mdns, c).funcs]
-    ok = len(cs) == 1 and bool(cs[0].args) and norm(cs[0].args[0]) in ("zeroconf_manager or ZeroconfManager()", "zeroconf_manager")
-    ctx.ob("C20.R3", mdns, "the caller's manager is used; a private one only when none was given", ok, f"{norm(cs[0].args[0]) if cs and cs[0].args else None}")
+    marg = res.bind_args(gi, cs[0]).get(gi.param_names()[0]) if len(cs) == 1 else None
+    if isinstance(marg, ast.Name) and marg.id not in mdns.param_names():
+        # taken into a local first
+        ldefs = [n.value for n in own_nodes(mdns.node) if isinstance(n, ast.Assign) and any(isinstance(t, ast.Name) and t.id == marg.id for t in n.targets)]
+        marg = ldefs[0] if len(ldefs) == 1 else marg
+    ok = marg is not None and norm(marg) in ("zeroconf_manager or ZeroconfManager()", "zeroconf_manager")
+    ctx.ob("C20.R3", mdns, "the caller's manager is used; a private one only when none was given", ok, f"{norm(marg) if marg is not None else None}")
 
 
 def _attr_targets(n: Node) -> list[ast.Attribute]:
@@ -656,7 +671,8 @@ def _must_on(g: CFG, asg: dict[str, bool], cl, toks: list[str]) -> set[str]:
 
 
 # =========================================================================== R4
-ADDRS = ["living-room", "esp", "esp.local", "esp.local.", "a.b.local", "esp.example.com", "example.com.", "local", ".local", "esplocal", "esp.locale", "192.168.1.7", "10.0.0.1", "::1", "fe80::1", "fe80::1%3", "2001:db8::2", "[::1]", "esp:6053", ""]
+ADDRS = ["living-room", "esp", "esp.local", "esp.local.", "a.b.local", "esp.example.com", "example.com.", "local", ".local", "esplocal", "esp.locale", "192.168.1.7", "10.0.0.1", "::1", "fe80::1", "fe80::1%3", "2001:db8::2", "[::1]", "esp:6053", "",
+         "living_room", "esp_1", "k\u00fcche", "ESP-Upper", "x" * 70, "-lead", "trail-", "7segment", "living_room.local", "k\u00fcche.local", "a b"]
 
 
 def r4(ctx: Ctx) -> None:
@@ -670,12 +686,18 @@ def r4(ctx: Ctx) -> None:
         ctx.require(len(rets) == 1 and rets[0].value is not None, f"{fn.key}: single return expression expected")
         p = fn.param_names()[0]
         bad = []
+        undecided = False
+        rx = _module_regexes(fn)
         for a in ADDRS:
-            v = _eval_str(rets[0].value, {p: a})
+            v = _eval_str(rets[0].value, {p: a, "__regex__": rx})
             if v is Unknown:
-                raise_unknown(fn, rets[0].value)
+                undecided = True
+                break
             if bool(v) != bool(spec(a)):
                 bad.append((a, v))
+        if undecided:
+            ctx.ob("C20.R4", fn, f"{what}", False, f"`{norm(rets[0].value)[:80]}` is outside the fragment the checker can evaluate (membership / prefix / suffix / constant regular expressions): the classification is not decided and therefore rejected")
+            continue
         ctx.ob("C20.R4", fn, f"{what} (evaluated on {len(ADDRS)} addresses)", not bad, f"deviations (address, code says): {bad[:4]}")
 
 
@@ -685,10 +707,43 @@ def raise_unknown(fn: Func, e: ast.expr) -> None:
     raise AnalysisError(f"{fn.key}: return expression {norm(e)} is outside the string evaluator's fragment")
 
 
+def _module_regexes(fn: Func) -> dict[str, Any]:
+    """Module-level `NAME = re.compile(<constant pattern>[, <constant flags>])` of fn's module, compiled by the checker."""
+    import re
+
+    out: dict[str, Any] = {}
+    for st in fn.module.tree.body:
+        if isinstance(st, ast.Assign) and len(st.targets) == 1 and isinstance(st.targets[0], ast.Name) and isinstance(st.value, ast.Call) and norm(st.value.func) in ("re.compile", "compile") and st.value.args and isinstance(st.value.args[0], ast.Constant) and isinstance(st.value.args[0].value, str) and not st.value.keywords:
+            flags = 0
+            okf = True
+            for fa in st.value.args[1:]:
+                nm = norm(fa)
+                if nm.startswith("re.") and hasattr(re, nm[3:]):
+                    flags |= int(getattr(re, nm[3:]))
+                else:
+                    okf = False
+            if okf:
+                try:
+                    out[st.targets[0].id] = re.compile(st.value.args[0].value, flags)
+                except re.error:
+                    pass
+    return out
+
+
 def _eval_str(e: ast.expr, env: dict[str, Any]) -> Any:
     """Tiny evaluator for boolean expressions over string membership / suffix tests."""
     if isinstance(e, ast.Constant):
         return e.value
+    if isinstance(e, ast.Call) and isinstance(e.func, ast.Attribute) and isinstance(e.func.value, ast.Name) and e.func.value.id in env.get("__regex__", {}) and e.func.attr in ("fullmatch", "match", "search") and len(e.args) == 1 and not e.keywords:
+        sarg = _eval_str(e.args[0], env)
+        if not isinstance(sarg, str):
+            return Unknown
+        return getattr(env["__regex__"][e.func.value.id], e.func.attr)(sarg) is not None or None  # truthy match / None
+    if isinstance(e, ast.Compare) and len(e.ops) == 1 and isinstance(e.ops[0], (ast.Is, ast.IsNot)) and isinstance(e.comparators[0], ast.Constant) and e.comparators[0].value is None:
+        lv = _eval_str(e.left, env)
+        if lv is Unknown:
+            return Unknown
+        return (lv is None) if isinstance(e.ops[0], ast.Is) else (lv is not None)
     if isinstance(e, ast.Name):
         return env.get(e.id, Unknown)
     if isinstance(e, ast.BoolOp):
